@@ -98,7 +98,8 @@ def execute_replica(plan, ridx, repo):
                 env_tags.append("env.short_writes")
             if disk_cfg.get("short_r"):
                 env_tags.append("env.short_reads")
-            job = {"scenario": plan["scenario"], "disk_root": os.path.join(root, "disk"),
+            job = {"scenario": plan["scenario"], "prop": plan.get("prop"),
+                   "disk_root": os.path.join(root, "disk"),
                    "disk_cfg": disk_cfg, "cwd": seg.get("cwd", "."),
                    "mkdirs": plan.get("mkdirs", []), "files": files, "ops": seg["ops"],
                    "env_tags": env_tags, "frame_check": plan.get("frame_check", True)}
@@ -440,13 +441,17 @@ def _ref_shrinks(ref):
     return out
 
 
-def shrink(plan, target, repo, budget=120, known=None, log=None):
-    """Minimise a failing plan while the same (prop, check, site) still fires."""
+def shrink(plan, target, repo, budget=120, known=None, log=None, seconds=90):
+    """Minimise a failing plan while the same (prop, check, site) still fires.  Bounded both in
+    executions and in wall-clock time (a candidate may be slow when the defect makes the library
+    slow)."""
     best = copy.deepcopy(plan)
     spent = [0]
+    t_end = time.time() + seconds
 
     def attempt(cand):
-        if spent[0] >= budget:
+        if spent[0] >= budget or time.time() > t_end:
+            spent[0] = budget
             return False
         spent[0] += 1
         return _try(cand, target, repo, known) is not None
